@@ -22,9 +22,13 @@ type params struct {
 	Reads   []string // members on which a message arrives (one per step, "" none; "a+a+b" = a burst delivered at once)
 	P       int
 	FailClose string // member whose Close returns an error
+	Stall     string // member whose Write stalls (back pressure) until it is closed; Close is called while a Write is stuck in it
 }
 
 func (p params) name() string {
+	if p.Stall != "" {
+		return fmt.Sprintf("%s/init=%q/%s/%s/reads=%s/P%d/stall=%s", strings.Join(p.Members, ""), p.Initial, p.Sched, strings.Join(p.Events, ","), strings.Join(p.Reads, ","), p.P, p.Stall)
+	}
 	return fmt.Sprintf("%s/init=%q/%s/%s/reads=%s/P%d/fc=%s", strings.Join(p.Members, ""), p.Initial, p.Sched, strings.Join(p.Events, ","), strings.Join(p.Reads, ","), p.P, p.FailClose)
 }
 
@@ -86,6 +90,9 @@ func scenarios(tier string) []vlib.Scenario {
 		}
 	}
 	add(params{Members: []string{"a", "b"}, Initial: "a", Sched: "event", Events: []string{"b", "a"}, Reads: []string{"a", "b"}, P: 2})
+	// Close while a Write is stuck inside the selected member
+	add(params{Members: []string{"a", "b"}, Initial: "a", Sched: "event", Events: []string{"a"}, Reads: []string{"b"}, Stall: "a"})
+	add(params{Members: []string{"a", "b", "c"}, Initial: "a", Sched: "event", Events: []string{"b"}, Reads: []string{"a"}, Stall: "b", P: 1})
 	add(params{Members: []string{"a", "b"}, Initial: "a", Sched: "lastused", Events: []string{"t", "t"}, Reads: []string{"b", "a"}, P: 1})
 	if tier == "thorough" {
 		add(params{Members: []string{"a", "b", "c"}, Initial: "b", Sched: "event", Events: []string{"c", "x", "a"}, Reads: []string{"a", "b", "c"}, P: 2})
@@ -103,6 +110,7 @@ func config(sc vlib.Scenario, tier string) vsched.Config {
 }
 
 type member struct {
+	stalled bool
 	id     string
 	failClose bool
 	n      int
@@ -124,6 +132,9 @@ func (m *member) Read() ([]byte, error) {
 }
 func (m *member) Write(b []byte) error {
 	vsched.Yield("h:member-write")
+	if m.stalled {
+		vsched.WaitUntil("member-write-stalled:"+m.id, func() bool { return m.closed })
+	}
 	if m.closed {
 		return transport.ErrAlreadyClosed
 	}
@@ -161,6 +172,8 @@ type step struct {
 }
 
 type world struct {
+	stuckErr  error
+	stuckDone bool
 	p        params
 	members  map[string]*member
 	newErr   error
@@ -276,6 +289,11 @@ func (w *world) main() {
 		doWrite(i + 1)
 	}
 	vsched.Quiesce()
+	if w.p.Stall != "" {
+		w.members[w.p.Stall].stalled = true
+		vsched.Go("h:stuck-writer", func() { w.stuckErr = tr.Write([]byte("stuck")); w.stuckDone = true })
+		vsched.Quiesce()
+	}
 	w.phase = "close"
 	w.rxSum, w.txSum = tr.RxBytesCounterValue(), tr.TxBytesCounterValue()
 	for _, m := range w.members {
